@@ -56,8 +56,8 @@ AggOK(in, out, kind, ascending, S, U) ==
        LET v == m[out[i][1]] IN Abs(out[i][2] - ((v[1] * S) \div (v[2] * U))) <= 1
   /\ IF ascending THEN AscendingEps(out, 0) ELSE DescendingEps(out, 0)
 
-\* same multiset of <<id, score>> whatever the input order
-SameAnswer(o1, o2) == RangeOf(o1) = RangeOf(o2) /\ Len(o1) = Len(o2)
+\* the same output whatever the input order (so equal scores must be ordered by a rule, not by accident)
+SameAnswer(o1, o2) == o1 = o2
 
 LimitOK(n, k, out) == out = [i \in 1..SanK(k, n) |-> i]
 
